@@ -78,8 +78,17 @@ type child struct {
 	curPhase string
 	curStep  atomic.Value // string
 
-	viol map[string][]evid.Violation
+	viol    map[string][]evid.Violation
+	obsSent map[string]bool
 }
+
+// observationPrefix marks entries of a child's partial that the parent files under "observations" instead of violations.
+const observationPrefix = "observation:"
+
+// undeliverableClass: generator classes outside C18's statement (pods, HTTP requests, valid NetworkPolicies, CNI requests,
+// configuration text) whose objects a real API server cannot deliver (apps/v1 defaulting sets spec.replicas, apiextensions
+// v1 validation requires a version). They are still generated; panics on them are observations.
+var undeliverableClass = map[string]bool{"deployment-nil-replicas": true, "crd-no-versions": true}
 
 func newSurface(n int) surface {
 	switch n {
@@ -111,7 +120,7 @@ func childMain(dir string) int {
 		fmt.Fprintln(os.Stderr, "child: cannot read task:", err)
 		return exitSetup
 	}
-	c := &child{dir: dir, pid: os.Getpid(), viol: map[string][]evid.Violation{}}
+	c := &child{dir: dir, pid: os.Getpid(), viol: map[string][]evid.Violation{}, obsSent: map[string]bool{}}
 	if err := json.Unmarshal(data, &c.t); err != nil {
 		fmt.Fprintln(os.Stderr, "child: bad task:", err)
 		return exitSetup
@@ -184,17 +193,31 @@ func childMain(dir string) int {
 		if ppv != nil {
 			c.recordPanic(in, ppv, "probe")
 		}
+		if (idx-c.t.Start)%20 == 19 {
+			// checkpoint: a fatal error kills the process without warning; what was observed so far must survive it
+			c.flushViolations()
+			c.writePartial()
+		}
 	}
 	c.s.close()
 	if n := atomic.LoadInt64(&barrierTimeouts); n > 0 {
 		c.run.Count("harness_barrier_timeouts", n)
 	}
 	c.flushViolations()
-	if err := c.run.WritePartial(filepath.Join(dir, "partial.json")); err != nil {
+	if err := c.writePartial(); err != nil {
 		fmt.Fprintln(os.Stderr, "child: cannot write partial:", err)
 		return exitSetup
 	}
 	return 0
+}
+
+// writePartial replaces partial.json atomically.
+func (c *child) writePartial() error {
+	tmp := filepath.Join(c.dir, "partial.tmp")
+	if err := c.run.WritePartial(tmp); err != nil {
+		return err
+	}
+	return os.Rename(tmp, filepath.Join(c.dir, "partial.json"))
 }
 
 func (c *child) setupGuarded() (err error) {
@@ -272,6 +295,19 @@ func (c *child) recordPanic(in *Input, pv *panicInfo, phase string) {
 		c.run.Inconclusive(fmt.Sprintf("panic outside galaxy code at %s input %d (%s, origin %s): %s", sname, in.Idx, phase, pv.origin,
 			truncate(pv.value, 200)))
 		fmt.Fprintf(os.Stderr, "FUZZMON harness panic at %s input %d: %s\n%s\n", sname, in.Idx, pv.value, pv.stack)
+		return
+	}
+	if undeliverableClass[in.Class] {
+		// C18's statement does not cover these objects and a defaulting / validating API server never delivers them:
+		// the panic is recorded as an observation, not as a violation
+		c.run.Count("obs_panic_undeliverable_"+in.Class, 1)
+		if !c.obsSent[in.Class] {
+			c.obsSent[in.Class] = true
+			c.run.Violate(evid.Violation{Sig: observationPrefix + in.Class, Case: fmt.Sprintf("%d:%s:%d", c.t.Seed, sname, in.Idx),
+				Msg: fmt.Sprintf("%s of %s input %d (class %s) panicked in %s: %s", in.Op, sname, in.Idx, in.Class, pv.topGalaxy, pv.value),
+				Witness: map[string]interface{}{"input": in.Show, "surface": c.t.Surface, "idx": in.Idx, "op": in.Op, "class": in.Class,
+					"phase": phase, "panic": pv.value, "top_galaxy_frame": pv.topGalaxy, "stack": truncate(pv.stack, 3000)}})
+		}
 		return
 	}
 	sig := fmt.Sprintf("panic-%s-%s", sname, shortFunc(pv.topGalaxy))
@@ -359,6 +395,6 @@ func (c *child) expired(gen int64, d time.Duration) {
 	data, _ := json.Marshal(h)
 	_ = os.WriteFile(filepath.Join(c.dir, "hang.json"), data, 0644)
 	c.flushViolations()
-	_ = c.run.WritePartial(filepath.Join(c.dir, "partial.json"))
+	_ = c.writePartial()
 	os.Exit(exitWatchdog)
 }
